@@ -183,6 +183,30 @@ fn probe_shapes(ctx: &mut Ctx, m: &M) {
     }
 }
 
+/// Pairs (n1, n2) such that the assertions "k": n1 and "k": n2 have digests with the same first four bytes (and
+/// n1's digest is the greater). Found once per process by a birthday search over the model's digests.
+pub fn prefix_twins() -> &'static Vec<(u64, u64)> {
+    static TWINS: std::sync::OnceLock<Vec<(u64, u64)>> = std::sync::OnceLock::new();
+    TWINS.get_or_init(|| {
+        let pk = M::leaf(CV::text("k"));
+        let mut seen: std::collections::BTreeMap<[u8; 4], (u64, D)> = std::collections::BTreeMap::new();
+        let mut out = vec![];
+        for n in 0..400_000u64 {
+            let d = M::assertion(pk.clone(), M::leaf(CV::U(n))).digest();
+            let key = [d[0], d[1], d[2], d[3]];
+            if let Some((m, dm)) = seen.get(&key) {
+                out.push(if *dm > d { (*m, n) } else { (n, *m) });
+                if out.len() >= 8 {
+                    break;
+                }
+            } else {
+                seen.insert(key, (n, d));
+            }
+        }
+        out
+    })
+}
+
 pub fn walk_digests(env: &Envelope) -> Vec<D> {
     let out = std::cell::RefCell::new(Vec::new());
     let visitor = |e: Envelope, _l: usize, _t: EdgeType, _p: Option<&()>| -> Option<&()> {
@@ -501,6 +525,27 @@ pub fn exec_step(w: &mut World, ctx: &mut Ctx, st: &Step) -> StepResult {
                 }
             }
         }
+        "AddTwins" => {
+            // two assertions whose digests agree in their first bytes (found by a birthday search at start-up): any
+            // ordering that looks at a truncated digest treats them as equal
+            let d = doc!(a0);
+            let twins = prefix_twins();
+            if twins.is_empty() {
+                return StepResult::Skipped;
+            }
+            let (n1, n2) = twins[(a1 % twins.len() as u64) as usize];
+            let order = if a3 % 2 == 0 { [n1, n2] } else { [n2, n1] };
+            let mut env = w.docs[d].env.clone();
+            let mut m = w.docs[d].m.clone();
+            for n in order {
+                env = lib!("add_assertion", env.add_assertion("k", n));
+                m = m.add_assertion_m(&M::assertion(M::leaf(CV::text("k")), M::leaf(CV::U(n))));
+            }
+            ctx.probe("assertions-with-colliding-digest-prefix");
+            let ind = w.docs[d].independent;
+            check_immutable(w, ctx, &[d], "add_assertion (prefix twins)");
+            push_doc(w, ctx, env, if ind { Some(m) } else { None }, "AddTwins")
+        }
         "AddMany" => {
             // many assertions on one subject (8..20), added one by one in an order drawn from the step's argument
             let d = doc!(a0);
@@ -803,6 +848,50 @@ pub fn exec_step(w: &mut World, ctx: &mut Ctx, st: &Step) -> StepResult {
                 ctx.checked();
                 if let Err(e) = compare_env(&env, &m, "") {
                     ctx.violate("C03.pattern", format!("{}: visibility pattern differs from the rule: {}", what, e));
+                }
+            }
+            if ctx.armed("C03") && !matches!(action, Obsc::Elided) {
+                // an element that carried its content in encrypted or compressed form and is addressed by a Compress /
+                // Encrypt pass it cannot take part in stays as it is: it is hidden already, and turning it into a bare
+                // digest would destroy content the key holder could still have opened
+                let before = w.docs[d].env.clone();
+                let holds = |e: &Envelope| e.is_encrypted() || e.is_compressed();
+                let mut carried: BTreeSet<D> = BTreeSet::new();
+                let mut found: Vec<Envelope> = vec![];
+                {
+                    let acc = std::cell::RefCell::new(Vec::new());
+                    let visitor = |e: Envelope, _l: usize, _t: EdgeType, _p: Option<&()>| -> Option<&()> {
+                        acc.borrow_mut().push(e);
+                        None
+                    };
+                    before.walk(false, &visitor);
+                    let all_before = acc.into_inner();
+                    for e in &all_before {
+                        if holds(e) {
+                            carried.insert(digest_of(e));
+                        }
+                    }
+                    // (a digest that also stood somewhere as a bare placeholder before proves nothing afterwards)
+                    for e in &all_before {
+                        if e.is_elided() {
+                            carried.remove(&digest_of(e));
+                        }
+                    }
+                    let acc2 = std::cell::RefCell::new(Vec::new());
+                    let visitor2 = |e: Envelope, _l: usize, _t: EdgeType, _p: Option<&()>| -> Option<&()> {
+                        acc2.borrow_mut().push(e);
+                        None
+                    };
+                    env.walk(false, &visitor2);
+                    found.extend(acc2.into_inner());
+                }
+                for dg in carried {
+                    let after: Vec<&Envelope> = found.iter().filter(|e| digest_of(e) == dg).collect();
+                    if !after.is_empty() && after.iter().all(|e| e.is_elided()) {
+                        ctx.checked();
+                        ctx.violate("C03.content-lost", format!("{}: an element that was held in encrypted / compressed form came out as a bare elided digest", what));
+                        break;
+                    }
                 }
             }
             // compressing / encrypting IN PLACE through the obscuring API is compression / encryption too: every
@@ -1253,6 +1342,9 @@ pub fn generate(property: &str, r: &mut SimRng, seed: u64) -> Scenario {
         }
         if on(r, 1, 3) {
             w.push(("NodeInNode", 2));
+        }
+        if on(r, 1, 4) {
+            w.push(("AddTwins", 1));
         }
         if on(r, 1, 4) {
             w.push(("TypedElement", 1));
